@@ -200,6 +200,7 @@ def run_task(task):
            'error': None}
     try:
         prog, reg = _init()
+        reg.context = None          # (a worker is reused: no oracle set of an earlier task may leak into the selection)
         con = reg.contract_for(cname, recv)
         fi = prog.func(cname)
         out['source'] = {'file': os.path.relpath(fi.path, prog.repo), 'lines': list(fi.lines), 'sha256': fi.sha} if fi else None
